@@ -38,11 +38,8 @@ impl Plan for Or {
     fn narrow() -> Vec<Cmd> {
         vec![cmd(so::ADD, 0, 0), cmd(so::RM_CONTAINS, 0, 0), cmd(so::ADD_ALL, 0, 0), cmd(so::RM_CONTAINS, 1, 0)]
     }
-    fn n(q: bool, heavy: bool) -> usize {
-        match (q, heavy) {
-            (true, _) => 3,
-            (false, _) => 4,
-        }
+    fn n(_q: bool, _heavy: bool) -> usize {
+        4
     }
     const DISC: Disc = Disc::Fifo;
 }
@@ -85,8 +82,8 @@ impl Plan for MapOr {
     fn narrow() -> Vec<Cmd> {
         vec![cmd(mo::ADD, 0, 0), cmd(mo::ADD, 0, 1), cmd(mo::RM_MEMBER, 0, 0), cmd(mo::RM_KEY, 0, 0)]
     }
-    fn n(q: bool, _heavy: bool) -> usize {
-        if q {
+    fn n(q: bool, heavy: bool) -> usize {
+        if q && heavy {
             3
         } else {
             4
@@ -99,8 +96,8 @@ impl Plan for MapMap {
     fn alphabet() -> Vec<Cmd> {
         vec![cmd(m2::ADD, 0, 0), cmd(m2::ADD, 0, 1), cmd(m2::RM_MEMBER, 0, 0), cmd(m2::RM_INNER, 0, 0), cmd(m2::RM_OUTER, 0, 0), cmd(m2::ADD, 0, 2), cmd(m2::ADD, 1, 0)]
     }
-    fn n(q: bool, _heavy: bool) -> usize {
-        if q {
+    fn n(q: bool, heavy: bool) -> usize {
+        if q && heavy {
             3
         } else {
             4
@@ -273,7 +270,7 @@ pub fn jobs(prop: &str, tier: &str) -> Vec<Box<dyn JobT>> {
         }
         "C05" => {
             each!([MapMv, MapOr, MapMap], |Y| job::<Y>(plan_cfg::<Y>("spec", q, true, Disc::Causal, true), SpecMatch { cov_everywhere: false, use_cov: true }));
-            each!([MapMv, MapOr, MapMap], |Y| job::<Y>(plan_cfg::<Y>("spec", q, true, Disc::Fifo, false), SpecMatch { cov_everywhere: true, use_cov: true }));
+            each!([MapMv, MapOr, MapMap], |Y| job::<Y>(plan_cfg::<Y>("spec", q, false, Disc::Fifo, false), SpecMatch { cov_everywhere: true, use_cov: true }));
         }
         "C06" => {
             j.push(job::<Mv>(plan_cfg::<Mv>("spec", q, true, Disc::Any, true), SpecMatch { cov_everywhere: true, use_cov: true }));
